@@ -59,7 +59,7 @@ def run(ctx: Ctx) -> int:
         "padding are part of the base families) are covered without comparing two runs: every rewritten variant of a slice of the C06 and detector families is validated by z3 "
         "against the semantics on its own (exact GroupSize/GroupIndex sets, detector verdict decided both ways), so on the fragment where these are exact two spellings agree "
         "because both equal the semantic value. A direct comparison of two concrete runs would be differential testing and is not done",
-        [UA.is_int_push_ins, PI._parse_int, TxnType._get_asserted_transaction_types],
+        [lambda: UA.is_int_push_ins, lambda: PI._parse_int, lambda: TxnType._get_asserted_transaction_types],
         {"constants": "all uint64 (kernels); 0..255 (spellings through parse_line)"},
         ["intcblock is in the entry block and unique (the documented condition under which tealer evaluates intc)"],
         timeout_quick=150, timeout_thorough=400,
